@@ -145,6 +145,56 @@ fn std_case(rep: &mut Report, h: &StdHeader, scal: bool, prev: Option<(&StdHeade
     judge(rep, flavour, ctxs, &bytes, &Exp { view: h.view(scal, &inh), nbits: n }, got, coords, fp);
 }
 
+/// A chain of standard headers, each parsed with the parsed form of its predecessor as the
+/// previous header; the model carries the modes in force from header to header.
+fn std_chain(rep: &mut Report, hs: &[StdHeader], scal: bool, coords: &dyn Fn() -> J) {
+    let mut inh = Inherited::default();
+    let mut prev_pic: Option<Picture> = None;
+    let mut fp = if scal { 0x5ca1c4a1 } else { 0xc4a1 };
+    for (i, h) in hs.iter().enumerate() {
+        let mut w = BitWriter::new();
+        h.encode(&mut w, scal, &inh);
+        let (bytes, n) = finish(w);
+        let got = parse(&bytes, false, scal, prev_pic.as_ref());
+        let flavour = if h.plus.is_some() { "std-plus" } else { "std" };
+        let ufep0 = h.plus.as_ref().map(|p| p.ufep == 0).unwrap_or(false);
+        let ctxs = if ufep0 && inh.custom_pcf { "/inherited-custom-pcf" } else { "" };
+        let before = rep.violations.len();
+        let before_n: u64 = rep.violations.values().map(|v| v.1).sum();
+        fp = crate::util::fnv64_more(fp, &bytes[..(n + 7) / 8]);
+        judge(rep, flavour, ctxs, &bytes, &Exp { view: h.view(scal, &inh), nbits: n }, got, coords, fp);
+        let after_n: u64 = rep.violations.values().map(|v| v.1).sum();
+        if rep.violations.len() != before || after_n != before_n || !ctxs.is_empty() {
+            // after a mismatch (or in the context of the recorded finding) later headers prove nothing
+            return;
+        }
+        if i > 0 {
+            rep.count("chain_headers_matched_after_predecessor");
+            if ufep0 {
+                rep.count(&format!("chain:ufep0-at-depth-{}", i.min(4)));
+                let ph = &hs[i - 1];
+                if ph.plus.is_none() {
+                    rep.count("chain:ufep0-after-baseline");
+                    if ph.umv || ph.sac || ph.ap {
+                        rep.count("chain:ufep0-after-baseline-with-modes");
+                    }
+                } else if ph.plus.as_ref().map(|p| p.ufep == 0).unwrap_or(false) {
+                    rep.count("chain:ufep0-after-ufep0");
+                    if !inh.opp_options.is_empty() {
+                        rep.count("chain:ufep0-after-ufep0-with-modes");
+                    }
+                }
+            }
+        }
+        inh = h.inherited_after(&inh);
+        prev_pic = match parse(&bytes, false, scal, prev_pic.as_ref()) {
+            Ok(Parsed { pic: Some(p), .. }) => Some(p),
+            _ => return,
+        };
+    }
+    rep.count("header_chains_completed");
+}
+
 fn base_plus(rng: &mut Rng) -> PlusHeader {
     PlusHeader {
         ufep: 1,
@@ -231,7 +281,7 @@ pub fn run(ctx: &Ctx) -> (Report, String) {
     if ctx.is_main() {
         let m = ctx.scale_pct;
         rep.require("headers_matched", if thorough { 40_000_000 } else { 3_000_000 } * m / 100);
-        for k in ["sweep:sor-custom8", "sweep:ptype-lowbits", "sweep:opptype-bits", "sweep:cpfmt", "sweep:par", "sweep:cpcfc-etr", "sweep:uui-sss", "sweep:layers", "sweep:rps", "sweep:pb", "inheritance_pairs", "marker_flips_rejected", "decoded_picture_header_checked", "decoded_picture_header_checked_in_history", "sweep:pei-ladder"] {
+        for k in ["sweep:sor-custom8", "sweep:ptype-lowbits", "sweep:opptype-bits", "sweep:cpfmt", "sweep:par", "sweep:cpcfc-etr", "sweep:uui-sss", "sweep:layers", "sweep:rps", "sweep:pb", "inheritance_pairs", "marker_flips_rejected", "decoded_picture_header_checked", "decoded_picture_header_checked_in_history", "sweep:pei-ladder", "header_chains_completed", "chain:ufep0-after-baseline-with-modes", "chain:ufep0-after-ufep0-with-modes", "chain:ufep0-at-depth-3", "decoded_without_restated_format", "decoded_without_restated_format_twice_in_a_row"] {
             rep.require(k, if k == "sweep:pei-ladder" { 20 } else { 40 });
         }
         {
@@ -595,6 +645,27 @@ fn shard(ctx: &Ctx, s: usize, n_random: u64, thorough: bool, rep: &mut Report) {
             std_case(rep, &b, false, Some((&a, false)), &coords);
             rep.count("inherit:baseline-after-any");
         }
+        // chains of 2-6 headers: baseline (with or without UMV/SAC/AP), PLUSPTYPE with and without
+        // OPPTYPE, in any order - what is in force has to survive any number of UFEP=0 headers
+        for _ in 0..ctx.n(1500, 40000) {
+            let len = 2 + rng.below(5) as usize;
+            let scal = rng.chance(1, 5);
+            let hs: Vec<StdHeader> = (0..len)
+                .map(|i| match rng.below(if i == 0 { 2 } else { 5 }) {
+                    0 => random_std(&mut rng, false),
+                    1 => random_std(&mut rng, true),
+                    _ => {
+                        let mut b = random_std(&mut rng, false);
+                        let mut pb = base_plus(&mut rng);
+                        pb.ufep = 0;
+                        pb.ptype = rng.below(6) as u8;
+                        b.plus = Some(pb);
+                        b
+                    }
+                })
+                .collect();
+            std_chain(rep, &hs, scal, &coords);
+        }
     }
     // ---- marker-bit flips must be rejected ----
     if s == 56 {
@@ -678,7 +749,8 @@ fn shard(ctx: &Ctx, s: usize, n_random: u64, thorough: bool, rep: &mut Report) {
             // repeated / increasing / random temporal references, new quantisers and (at I pictures) new sizes
             let mut cfg = cfg.clone();
             let (mut w, mut h) = (w, h);
-            let steps = if (i as usize) < big.len() { 0 } else { 1 + rng.below(4) };
+            let steps = if (i as usize) < big.len() { 0 } else { 1 + rng.below(6) };
+            let mut prev_formatless = false;
             for step in 0..steps {
                 cfg.tr = match rng.below(3) {
                     0 => cfg.tr,
@@ -700,15 +772,28 @@ fn shard(ctx: &Ctx, s: usize, n_random: u64, thorough: bool, rep: &mut Report) {
                     let disp = flavour.sorenson() && kind == 2;
                     super::c04::vector_field_picture(&mut rng, &cfg, disp)
                 };
+                let mut pic = pic;
+                let formatless = kind != 0 && flavour == Flavour::StdPlus && rng.chance(2, 3) && drop_format(&mut pic);
                 let bytes = pic.encode();
                 rep.evaluations += 1;
                 match dec.decode(&bytes) {
                     Outcome::Ok => {}
+                    Outcome::Err(k) if formatless => {
+                        rep.violation(format!("decoded-size/history/format-in-force-lost/{}", k), format!("picture {} of a history does not restate its format ({}x{} is in force) and is rejected with {}", step + 1, w, h, k), coords());
+                        break;
+                    }
                     o => {
                         rep.count(&format!("skipped:decode:{}", o.short()));
                         break;
                     }
                 }
+                if formatless {
+                    rep.count("decoded_without_restated_format");
+                    if prev_formatless {
+                        rep.count("decoded_without_restated_format_twice_in_a_row");
+                    }
+                }
+                prev_formatless = formatless;
                 let exp = match &pic.hdr {
                     Hdr::Sor(hh) => hh.view(),
                     Hdr::Std(hh) => hh.view(false, &Inherited::default()),
